@@ -90,12 +90,17 @@ impl<'a> Gen<'a> {
         self.rng.shuffle(&mut idx);
         let mut members: Vec<usize> = idx.into_iter().take(size).collect();
         members.sort_unstable();
+        // relative stake r with r * |ln(1 - phi_f)| of about 9 or 14: win probability per claimed
+        // index 1 - e^-9 (resp. e^-14), and a lottery check that still converges quickly
+        let phi_f = self.ws.material.sets[set].phi_f;
+        let target = *self.rng.pick(&[9.0f64, 9.0, 14.0]);
+        let divisor = (target / (1.0 - phi_f).ln().abs()).ceil().max(2.0) as u64;
         let (label, greedy, total_stake) = match flavour {
-            0 => ("insider_total_stake_shrunk", true, TotalStake::ShrunkBy(*self.rng.pick(&[50u64, 20, 1000]))),
+            0 => ("insider_total_stake_shrunk", true, TotalStake::ShrunkBy(divisor)),
             1 => ("insider_total_stake_enlarged", true, TotalStake::EnlargedBy(*self.rng.pick(&[2u64, 1000]))),
             2 => ("insider_greedy_key_unaltered", true, TotalStake::Keep),
             3 => ("insider_fair_subset_key_unaltered", false, TotalStake::Keep),
-            _ => ("insider_fair_subset_total_stake_shrunk", false, TotalStake::ShrunkBy(50)),
+            _ => ("insider_fair_subset_total_stake_shrunk", false, TotalStake::ShrunkBy(divisor)),
         };
         (label.to_string(), Edit::InsiderSign { set, members, greedy, total_stake })
     }
